@@ -104,69 +104,95 @@ def run(ck, F):
                  detail={'rows': w})
 
     # ---------------------------------------------------------------- project / decompose
-    R2 = ck.rule('C10.same-bit', 'project and decompose compute the bit of row i by the same expression 1u << i of a counter '
-                 'that starts at 0 and advances exactly once per iteration over the same table; the table is not longer '
-                 'than the width of the shifted operand', floor=6)
-    R3 = ck.rule('C10.refuse-unknown', 'project returns only from inside the guarded loop and otherwise throws: an unknown '
-                 'name is refused, not answered', floor=4)
-    R6 = ck.rule('C10.decompose-exact', 'decompose pushes row i exactly when the element implies bit i, and returns the '
-                 'collected rows', floor=2)
+    R2 = ck.rule('C10.same-bit', 'project, evaluated with its table unrolled, answers the single bit 1 << i exactly when row i is '
+                 'the first row that matches the name; the table is not longer than the carrier is wide', floor=6)
+    R3 = ck.rule('C10.refuse-unknown', 'project has one answer per row and refuses (throws) exactly when no row matches: an '
+                 'unknown name is refused, not answered', floor=4)
+    R6 = ck.rule('C10.decompose-exact', 'decompose, evaluated on the empty set, the full set, every singleton and every adjacent '
+                 'pair, collects exactly the rows whose bit is set, in table order, into the collection it returns', floor=2)
     projects = [f for f in F.fn.values() if f['name'] == 'project' and f['q'].startswith('ipr::impl::(anon)::project<')]
     decomps = [f for f in F.fn.values() if f['name'] == 'decompose' and '(anon)::Basis<' in (f.get('parent') or '')]
     if len(projects) < 4 or len(decomps) < 2:
         raise AnalysisBroken(f'{len(projects)} project / {len(decomps)} decompose instantiations found')
+    WIDTH = {'unsigned int': 32, 'int': 32, 'unsigned long': 64, 'long': 64, 'unsigned long long': 64, 'unsigned short': 16, 'unsigned char': 8}
+    Sx = Sym(F, opaque=lambda fid: F.fn.get(fid) is None, max_depth=24, max_paths=400)
+
+    def mentions(t, x):
+        return t == x or (isinstance(t, tuple) and any(mentions(y, x) for y in t))
+    import re
     for f in sorted(projects, key=lambda f: f['id']):
         inst = 'project<' + ', '.join(contracts.short(x) for x in f['targs'][:2]) + '>'
-        sh = loop_shape(f, True)
-        if not sh['ok']:
-            ck.fail(R2, inst, f'{f["id"]}: {sh["why"]}', loc=f['loc'], fn=f['id'])
-            continue
-        rng = sh['range']
-        over_table = rng.get('k') == 'ref' and rng.get('kind') == 'parm' and rng.get('idx') == 1
-        n = int(f['params'][1]['t'].split('[')[1].split(']')[0])
-        width = 32 if sh['shift_type'] in ('unsigned int', 'int') else (64 if 'long' in sh['shift_type'] else 0)
-        ck.check(R2, inst, over_table and n <= width,
-                 f'{f["id"]}: iterates over {rng.get("name")}, {n} rows, shifted operand of type {sh["shift_type"]} ({width} bits)',
-                 loc=f['loc'], fn=f['id'], detail={'rows': n, 'width': width})
-        # guard: pred(x, s); action: return the bit; after loop: throw
-        act = sh['action']
-        act = stmts(act)[0] if act.get('k') == 'compound' and len(stmts(act)) == 1 else act
-        ret_ok = act.get('k') == 'return' and any(n2.get('op') == '<<' for n2 in walk(act))
-        g = strip_casts(sh['guard'])
-        guard_ok = g.get('k') == 'call' and strip_casts(g.get('obj') or {}).get('idx') == 2 and \
-            [strip_casts(a).get('kind') for a in g.get('args', [])] == ['local', 'parm'] and strip_casts(g['args'][1]).get('idx') == 0
-        after = sh['after']
-        tail_ok = len(after) == 1 and after[0].get('k') == 'throw'
-        other_returns = sum(1 for n2 in walk(f['body']) if n2.get('k') == 'return')
-        ck.check(R3, inst, ret_ok and guard_ok and tail_ok and other_returns == 1,
-                 f'{f["id"]}: guarded return={ret_ok}, guard is pred(row, name)={guard_ok}, throws after the loop={tail_ok}, '
-                 f'{other_returns} return statement(s)', loc=f['loc'], fn=f['id'])
+        m = re.search(r'\[(\d+)\]', f['params'][1]['t'])
+        if not m:
+            raise AnalysisBroken(f'{f["id"]}: the table parameter is not an array of known extent')
+        n = int(m.group(1))
+        width = WIDTH.get(f.get('ret', ''), 0)
+        # evaluated with the table unrolled: the outcome for `row i is the first that matches` must be the single bit i
+        try:
+            outs = Sx.run(f['id'])
+        except Unsupported as e:
+            raise AnalysisBroken(f'{f["id"]}: outside the evaluator language: {e}')
+        by_row, refusals, why = {}, 0, []
+        for st, k, v in outs:
+            hits = [c for c, val in st.conds if val]
+            misses = [c for c, val in st.conds if not val]
+            rows_missed = [j for j in range(n) if any(mentions(c, ('index', ('param', 1), ('k', j, 'int'))) for c in misses)]
+            if k == 'throw':
+                refusals += 1
+                if hits or rows_missed != list(range(n)):
+                    why.append(f'refuses although only rows {rows_missed} were tried')
+                continue
+            if len(hits) != 1 or not (isinstance(v, tuple) and v[0] == 'k'):
+                why.append(f'an answer {contracts.render(v, st, {})} not selected by exactly one matching row')
+                continue
+            row = [j for j in range(n) if mentions(hits[0], ('index', ('param', 1), ('k', j, 'int')))]
+            if len(row) != 1 or rows_missed != list(range(row[0])) or not mentions(hits[0], ('param', 0)):
+                why.append(f'the answer {v[1]} is not selected by `row i is the first row matching the name`')
+                continue
+            by_row[row[0]] = v[1]
+        wrong = {i: by_row.get(i) for i in range(n) if by_row.get(i) != (1 << i)}
+        ck.check(R2, inst, not wrong and not why and 0 < n <= width,
+                 f'{f["id"]}: rows whose answer is not the single bit of their position: {wrong}; {"; ".join(sorted(set(why)))}; '
+                 f'{n} rows, result type of {width} bits', loc=f['loc'], fn=f['id'], detail={'rows': n, 'width': width})
+        ck.check(R3, inst, refusals == 1 and len(outs) == n + 1 and not why,
+                 f'{f["id"]}: {refusals} refusing outcome(s) among {len(outs)} (expected: one answer per row, and a refusal exactly '
+                 f'when no row matches); {"; ".join(sorted(set(why)))}', loc=f['loc'], fn=f['id'])
     for f in sorted(decomps, key=lambda f: f['id']):
         inst = contracts.short(f['parent']) + '::decompose'
-        sh = loop_shape(f, False)
-        if not sh['ok']:
-            ck.fail(R2, inst, f'{f["id"]}: {sh["why"]}', loc=f['loc'], fn=f['id'])
-            continue
-        rng = sh['range']
-        tname = rng.get('name') if rng.get('kind') == 'global' else None
-        n = len(words.get(tname, [])) if tname else 0
-        width = 32 if sh['shift_type'] in ('unsigned int', 'int') else (64 if 'long' in sh['shift_type'] else 0)
-        ck.check(R2, inst, tname in words and 0 < n <= width,
-                 f'{f["id"]}: iterates over {tname}, {n} rows, shifted operand {sh["shift_type"]} ({width} bits)', loc=f['loc'], fn=f['id'])
-        g = strip_casts(sh['guard'])
-        guard_ok = g.get('k') == 'call' and (g.get('callee') or {}).get('q', '').startswith('ipr::implies<') and \
-            strip_casts(g['args'][0]).get('kind') == 'parm' and any(n2.get('op') == '<<' for n2 in walk(g['args'][1]))
-        act = sh['action']
-        act = stmts(act)[0] if act.get('k') == 'compound' and len(stmts(act)) == 1 else act
-        push_ok = act.get('k') == 'call' and (act.get('callee') or {}).get('name') == 'push_back' and \
-            strip_casts(act['args'][0]).get('kind') == 'local' and strip_casts(act['args'][0]).get('id') == (f['body'] and [s for s in walk(f['body']) if s.get('k') == 'rangefor'][0]['var']['id'])
-        resvar = strip_casts(act.get('obj') or {})
-        after = sh['after']
-        ret_ok = len(after) == 1 and after[0].get('k') == 'return' and strip_casts(after[0].get('e') or {}).get('id', -1) == resvar.get('id', -2) \
-            or (len(after) == 1 and after[0].get('k') == 'return' and resvar.get('id') in [n2.get('id') for n2 in walk(after[0]) if n2.get('k') == 'ref'])
-        ck.check(R6, inst, guard_ok and push_ok and ret_ok,
-                 f'{f["id"]}: guard is implies(element, bit i)={guard_ok}, action pushes row i={push_ok}, returns the collection={ret_ok}',
-                 loc=f['loc'], fn=f['id'])
+        tnames = [t for t in words if t in f['parent']]
+        if len(tnames) != 1:
+            raise AnalysisBroken(f'{f["id"]}: cannot tell which basis table it decomposes over')
+        tname = tnames[0]
+        n = len(words[tname])
+        width = WIDTH.get((F.enums.get(f['params'][0]['t']) or {}).get('underlying', ''), 0)
+        # finite-case evaluation: singletons, adjacent pairs, the empty and the full set; decisions on bit i depend on bit i
+        cases = [0, (1 << n) - 1] + [1 << k for k in range(n)] + [(1 << k) | (1 << (k + 1)) for k in range(n - 1)]
+        bad = []
+        for e in cases:
+            try:
+                outs = Sx.run(f['id'], this=None, args=[('k', e, 'int')])
+            except Unsupported as ex:
+                raise AnalysisBroken(f'{f["id"]}: outside the evaluator language: {ex}')
+            if len(outs) != 1 or outs[0][1] != 'return':
+                bad.append(f'element {e:#x}: {len(outs)} outcomes')
+                continue
+            st, _k, v = outs[0]
+            pushes = [x for x in st.effects if x[0] == 'call' and contracts.fn_simple(x[1]) in ('push_back', 'emplace_back')]
+            got, ok_table = [], True
+            for x in pushes:
+                a = x[3][0]
+                while isinstance(a, tuple) and a and a[0] in ('castto', 'addr', 'deref'):
+                    a = a[2] if a[0] == 'castto' else a[1]
+                if isinstance(a, tuple) and a[0] == 'index' and a[1][0] == 'global' and a[1][1].endswith('::' + tname) and a[2][0] == 'k':
+                    got.append(a[2][1])
+                else:
+                    ok_table = False
+            want = [i for i in range(n) if e >> i & 1]
+            same_vec = all(x[2] == pushes[0][2] for x in pushes) and (not pushes or mentions(v, pushes[0][2]) or v == pushes[0][2])
+            if got != want or not ok_table or not same_vec:
+                bad.append(f'element {e:#x}: rows {got} collected, expected {want}' + ('' if same_vec else ' (not into the returned collection)'))
+        ck.check(R2, inst, 0 < n <= width, f'{f["id"]}: {n} rows over a carrier of {width} bits', loc=f['loc'], fn=f['id'])
+        ck.check(R6, inst, not bad, f'{f["id"]}: ' + '; '.join(bad[:4]), loc=f['loc'], fn=f['id'], detail={'cases': len(cases)})
 
     # ---------------------------------------------------------------- accessors
     R4 = ck.rule('C10.named-accessors', 'every named accessor of the Lexicon asks the basis for the word of its own name and '
